@@ -1,9 +1,9 @@
-\* C17 bridge design check (the code's tagging rule): 3 addresses, nesting up to 3 snapshots, <= 7 steps per transaction,
+\* C17 bridge design check (the code's tagging rule): 3 addresses, nesting up to 3 snapshots, <= 6 steps per transaction,
 \* every interleaving of first accesses, writes, nested snapshots and reverts, both transaction outcomes
 SPECIFICATION Spec
 CONSTANTS
   Addr = {1, 2, 3}
-  MaxOps = 7
+  MaxOps = 6
   TagOffset = 1
   DropIf = "gt"
 INVARIANTS NoStaleRead SyncNotReverted FailureIsInvisible WriteBackExact
